@@ -121,13 +121,24 @@ func LoadRules(rules []*Rule) (bool, error) {
 // reduce or do not call GetRules if possible.
 func GetRules() []Rule {
 	tcMux.RLock()
-	rules := rulesFrom(tcMap)
-	tcMux.RUnlock()
+	defer tcMux.RUnlock()
 
-	ret := make([]Rule, 0, len(rules))
-	for _, rule := range rules {
-		ret = append(ret, copyOfRule(rule))
+	ret := make([]Rule, 0, 8)
+	for _, resTcs := range tcMap {
+		for _, tc := range resTcs {
+			if tc != nil && tc.BoundRule() != nil {
+				ret = append(ret, reportedRuleOf(tc))
+			}
+		}
 	}
+	return ret
+}
+
+// reportedRuleOf is the copy of a controller's rule that the getters hand out. It carries the ID the rule was
+// last loaded under: a controller kept for a rule that was only renamed still holds the old rule object.
+func reportedRuleOf(tc TrafficShapingController) Rule {
+	ret := copyOfRule(tc.BoundRule())
+	ret.ID = loadedIDOf(tc)
 	return ret
 }
 
@@ -158,7 +169,7 @@ func GetRulesOfResource(res string) []Rule {
 
 	ret := make([]Rule, 0, len(resTcs))
 	for _, tc := range resTcs {
-		ret = append(ret, copyOfRule(tc.BoundRule()))
+		ret = append(ret, reportedRuleOf(tc))
 	}
 	return ret
 }
